@@ -81,11 +81,11 @@ def _trav(pid, what, extra=""):
 
 CHECKS.update({
     "C01": _trav("C01", "Monitor: at every start, each required non-root state of a non-permanent object is in the worker's own pool or in a pool the test is instructed and permitted to read, unless its producer (or the object's creation) was attempted in this run and did not pass; evaluated on the store model; in the 'composed' plans the same question is answered by the real states.setup.get_states running over the real SourcedStateBackend/RootSourcedStateBackend with the parameters the traversal handed to the test (only the storage is the model), and the agreement of both oracles is counted in the evidence."),
-    "C02": _trav("C02", "Monitor: every coroutine returns without exception, no livelock (all live workers backing off with nobody running) and no step-bound overrun; every selected compatible test was executed and no result is left UNKNOWN; a dry run executes nothing and makes no state request. Outcomes include 'never reported'."),
+    "C02": _trav("C02", "Monitor: every coroutine returns without exception, no livelock (all live workers backing off with nobody running) and no step-bound overrun; every selected compatible test was executed and no result is left UNKNOWN; a dry run executes nothing and makes no state request. Outcomes include 'never reported' (also: no result is ever reported, unbounded); virtual-time plans let executions hang up to 5 x test_timeout so that a waiting worker exhausts its wait budget and joins in."),
     "C03": _trav("C03", "Monitor: executions grouped by worker-invariant name and reuse scope (global / per swarm / per worker from pool_scope and spawner) never exceed max(1, max_tries); a setup test whose states were all found at its first examination is not executed in that scope; clone sources and flat tests never execute."),
     "C04": _trav("C04", "Monitor: executions of one test (the two creation steps of an object counted as one) by different workers of a scope overlap at most max_concurrent_tries times; no worker enters between the two creation steps of another. In addition to choice mode, virtual-time plans give every execution a symbolic real duration in (0, test_timeout) and let the solver decide the order of wake-ups (one path = one feasible event order for all durations consistent with it), which covers the back-off budget arithmetic; those plans are capped by time and report exhaustive=false when not completed."),
-    "C05": _trav("C05", "Monitor: every unset request addresses a state marked removable (unset_mode f.), is issued while no execution needing or producing it runs and no dependant starts afterwards; with pool_filter=reuse no copy (get) request is made while backing out."),
-    "C08": _trav("C08", "Monitor: at every start the executing worker is the node's net with its own nets_* parameters and is not excluded by restrictions; for each required state the named sources are exactly the shared pool plus the workers that produced it in this run (PASS/WARN), with those workers' access parameters."),
+    "C05": _trav("C05", "Monitor: every unset request addresses a state marked removable (unset_mode f.), is issued while no execution needing or producing it runs and no dependant starts afterwards (incl. dependants another worker expanded lazily, removal marks given per image or as mode 'fa'); with pool_filter=reuse no copy (get) request is made while backing out."),
+    "C08": _trav("C08", "Monitor: at every start the executing worker is the node's net with its own nets_* parameters and is not excluded by restrictions; for each required state the named sources are exactly the shared pool plus the workers that produced it in this run (PASS/WARN), with those workers' access parameters (also for a retried test whose producer finished between its tries); with runtime slots the connection parameters equal an independent reference of the documented slot meaning; state control requests go through the acting worker's own connection."),
     "C06": dict(
         category="other",
         technique="structural oracle over graphs built by the real parser: concrete menu, solver-explored lazy expansions, symbolic-edge family",
@@ -101,7 +101,7 @@ CHECKS.update({
         technique="lazy-vs-eager graph comparison under solver-explored schedules + bridging protocol explored over solver-chosen orders",
         text=("(a) every lazily expanded graph reached under solver-chosen schedules is compared node by node with the eagerly parsed graph (dependencies, objects; every selected compatible test expanded by some worker); "
               "(b) worker copies: symmetric bridging, four distinct registers shared by all copies; (c) the bridging protocol on real equivalent nodes with solver-chosen arrival order, "
-              "bridge-list order and interleaved visit registrations for both call-site protocols (exhaustive for 3 (4) copies); (d) parsing twice gives the same graph."),
+              "bridge-list order and interleaved visit registrations for both call-site protocols (exhaustive for 3 (4) copies); (d) parsing twice gives the same graph; (e) an observer on EdgeRegister.register remembers every recorded visit: at the end of every explored lazy traversal each one must still be in a register that some node uses (progress is never lost when copies are linked)."),
         note="Selections from a concrete menu (L1). Trusted: structure.py signatures.",
         design="DESIGN.md §1 C09", engine="symx+vsched"),
     "C10": dict(
@@ -110,7 +110,7 @@ CHECKS.update({
         text=("(a) the real TestNode.should_rerun on real parsed nodes (stateless leaf, stateful setup with a bridged copy) with max_tries a symbolic integer in [-2,6] (one path covers an interval), "
               "solver-chosen status histories split between the node and its bridged copy, rerun/stop sets from a menu incl. invalid words, replay on/off, non-integer max_tries; the property's sentence as a "
               "z3 formula discharged per path (exhaustive). (d) the real all_results_ok against 'every name has an acceptable result' for all result lists up to 3 (4) entries. "
-              "(b) identifiers pairwise distinct and each execution's own outcome recorded, (c) replay of previous results with symbolic previous statuses: traversal monitors."),
+              "(b) identifiers pairwise distinct and each execution's own outcome recorded, (c) replay of previous results with symbolic previous statuses (a replayed passing test whose state is missing from the store must run again), (e) for one worker the number of tries per test and per object creation equals what max_tries and the rerun/stop rules give: traversal monitors."),
         note="Decision table overwrites params/results of real parsed nodes in place. Traversal parts share the C01-C05 trusted base.",
         design="DESIGN.md §1 C10", engine="symx+vsched"),
     "C12": dict(
@@ -119,7 +119,7 @@ CHECKS.update({
         text=("The real check/get/set/unset/push/pop_states run against an in-memory backend registered in BACKENDS with both mode letters symbolic characters (a path covers every letter the code does not "
               "distinguish) and state/root presence per object as solver variables; operation, state kind, addressed type and object, skip_types, readonly image, check_mode, 1..2 vms x 1..2 images "
               "and sequences of 2 (3) operations are enumerated by the explorer. The README policy table is a reference program over the same symbolic letters; raised exception class, state-changing "
-              "backend calls, get calls and touched objects are compared per path. Exhaustive within the bounds."),
+              "backend calls, get calls and touched objects are compared per path. Exhaustive within the bounds. check_mode: unset, 'rr' and 'rf' get the full reference; the other values of this undocumented experimental parameter (thorough tier) only the clause 'nothing but the addressed objects is touched'."),
         note="push/pop are not combined with skip_types/image_readonly (they re-root the iteration and do not evaluate them). Trusted: the reference program, the in-memory backend.",
         design="DESIGN.md §1 C12"),
 })
@@ -169,7 +169,7 @@ CHECKS.update({
 })
 
 CHECKS.update({
-    "C15": _trav("C15", "The graph is the one the real intertest_setup.update builds (clean/run/skip graphs, flag_children/flag_intersection, bridging) entered through the selftests' job seam; TestRunner.run_workers hands it to the scheduler. Monitor: the executed setup tests are exactly the producers of the states on the from..to path of each selected vm (creation steps iff install is on the path), every unset request is for a state of a selected vm derived from the target state, every derived state is removed on every worker, nothing of other vms; nonexistent from/to states raise ValueError. Menu: six (from,to) pairs, vm1 / vm1+vm2, 1-2 workers."),
+    "C15": _trav("C15", "The graph is the one the real intertest_setup.update builds (clean/run/skip graphs, flag_children/flag_intersection, bridging) entered through the selftests' job seam; TestRunner.run_workers hands it to the scheduler. Monitor: the executed setup tests are exactly the producers of the states on the from..to path of each selected vm (creation steps iff install is on the path), every unset request is for a state of a selected vm derived from the target state, every derived state is removed on every worker, nothing of other vms; nonexistent from/to states are rejected before anything runs. The path is checked per selected variant of a vm, removals must go through the connection of the worker they are meant for. Menu: six (from,to) pairs, vm1 / vm1+vm2 / both variants of vm1 / permanent vm3, 1-3 lxc workers and two remote workers behind one gateway."),
     "C20": dict(
         category="other",
         technique="solver-chosen step outcomes through the real Manu.run + tool graphs built by the real intertest_setup code explored under solver-chosen schedules",
